@@ -180,6 +180,8 @@ pub fn build<Data: GarnishData>(parse_root: usize, parse_tree: Vec<ParseNode>, d
     let mut root_stack = vec![parse_root];
 
     while let Some(root_index) = root_stack.pop() {
+        #[cfg(feature = "verif_hooks")]
+        crate::verif::tick();
         let current_root_jump = match nodes.get(root_index) {
             Some(Some(node)) => match &node.jump_index_to_update {
                 Some(index) => {
@@ -206,6 +208,8 @@ pub fn build<Data: GarnishData>(parse_root: usize, parse_tree: Vec<ParseNode>, d
         let mut stack = vec![root_index];
 
         while let Some(node_index) = stack.pop() {
+            #[cfg(feature = "verif_hooks")]
+            crate::verif::tick();
             let parse_node = match parse_tree.get(node_index) {
                 Some(node) => node,
                 None => Err(CompilerError::new_message(format!("No parse node at index {}", node_index)))?,
